@@ -197,7 +197,8 @@ def run(tier, seed):
             for i, x in enumerate(recs):
                 general = len(x["orbit"]) == t["nsymop"]
                 kind = rng.choice(["Uiso", "Uani", None]) if general else rng.choice(["Uiso", None, "UaniIso"])
-                uiso = rng.uniform(0.005, 0.05)
+                # mostly ordinary values; now and then the very large ones of disordered solvent (U up to 2.5 A^2, B up to 200)
+                uiso = rng.uniform(0.005, 0.05) if rng.random() < 0.8 else rng.choice([0.0, 0.9, 1.0, 1.2, 2.5])
                 if kind == "Uani":
                     adp = S.random_uani(rng, met, c)
                 elif kind == "UaniIso":
